@@ -312,7 +312,7 @@ func main() {
 	var total mc.Stats
 	perMech := map[string]any{}
 	var epochBuilt int64
-	pool := ccm.NewWorlds(16)
+	pool := ccm.NewWorlds(32)
 	sem := make(chan struct{}, 16)
 	var wg sync.WaitGroup
 	for _, j := range jobs {
@@ -508,7 +508,7 @@ func explore(r *ev.Run, j job, pool *ccm.Worlds, epochBuilt *int64) mc.Stats {
 		return nx
 	}
 	return mc.BFS(mc.Config[state]{
-		Init: []state{j.init}, Workers: 1, Stop: r.Expired, MaxDepth: 3*n + 10,
+		Init: []state{j.init}, Workers: 4, Stop: r.Expired, MaxDepth: 3*n + 10,
 		Key: func(s state) string { return s.key() },
 		Events: func(s state, depth int) []string {
 			if s.Post >= 2 {
